@@ -4,6 +4,7 @@ import shutil
 import numpy as np
 
 from gen.dataset import random_spec
+from ref import templates as rt
 from vmon.core import call, same, hkey, scratch_dir
 
 ID = 'C09'
@@ -57,6 +58,9 @@ def run_case(case, ctx):
     if rng.random() < 0.03:
         # id products that overflow 16 bits: many templates, uint16 ids, curated clusters
         opts.update(nt=300, ns=900, dtype_ids='uint16', clusters='curated', features='none')
+    if rng.random() < 0.35:
+        # probes wider than the channel neighbourhood of a template (12 nearest, same shank)
+        opts.update(nc=[13, 20, 32][int(rng.integers(0, 3))], shanks=int(rng.integers(0, 3)), interleave=bool(rng.random() < 0.3))
     opts['wmi_only'] = bool(opts['wm'] and rng.random() < 0.25)      # only whitening_mat_inv.npy is shipped
     if case.get('large'):
         opts.update(ns=[100001, 120000, 150000][case['seed'][1] % 3], n_samples=2000000, features=['sparse', 'dense'][case['seed'][1] % 2],
@@ -67,6 +71,10 @@ def run_case(case, ctx):
     spec = random_spec(rng, **opts)
     if rng.random() < 0.25:
         spec.notes['template_scaling'] = [8.0, 0.5][int(rng.integers(0, 2))]   # params.py option; not part of the amplitude formulas
+    if rng.random() < 0.2:
+        spec.notes['n_closest_channels'] = 4
+    if rng.random() < 0.2:
+        spec.notes['amplitude_threshold'] = 0.4
     if spec.pc_features is not None:
         neg = rng.permutation(spec.n_spikes)[:3]
         spec.pc_features[neg, 0, :] = -np.abs(spec.pc_features[neg, 0, :]) - 0.1   # positive part vanishes
@@ -178,6 +186,27 @@ def _check(m, spec, desc, ctx, f0, factor):
         if not r.ok or same(r.value, dur, dtype=False, rtol=1e-9):
             V('summary_mismatch' if r.ok else 'raised', '%s_waveforms_durations: %s' % (
                 name, r.exc if not r.ok else same(r.value, dur, dtype=False, rtol=1e-9)), function=name + '_waveforms_durations')
+    # curated datasets: peak channel and duration of every cluster whose waveform the dataset's files determine
+    # uniquely (weighted mean of its templates on the dominant template's channels), where the extremum is clear
+    if spec.curated and spec.template_ind is None:
+        Dexp, sure = rt.cluster_waveforms_expected(spec)
+        rch, rdu = call(lambda: np.asarray(m.clusters_channels)), call(lambda: np.asarray(m.clusters_waveforms_durations))
+        for c in np.nonzero(sure)[0]:
+            pk = rt.clear_argmax(ptp(Dexp[c:c + 1], 1)[0])
+            if pk is None or not Dexp[c].any():
+                continue
+            ctx.mon('curated_cluster_summaries_from_files')
+            if rch.ok and len(rch.value) > c and int(rch.value[c]) != pk:
+                V('summary_mismatch', 'clusters_channels[%d] = %r, but the weighted mean of its templates peaks on channel %d' % (
+                    c, rch.value[c], pk), function='clusters_channels', from_files=True)
+                break
+            hi, lo = rt.clear_argmax(Dexp[c][:, pk]), rt.clear_argmax(-Dexp[c][:, pk])
+            if hi is None or lo is None:
+                continue
+            if rdu.ok and len(rdu.value) > c and not np.isclose(rdu.value[c], (hi - lo) / rate * 1e3, rtol=1e-9):
+                V('summary_mismatch', 'clusters_waveforms_durations[%d] = %r, expected %r from the weighted mean of its templates' % (
+                    c, rdu.value[c], (hi - lo) / rate * 1e3), function='clusters_waveforms_durations', from_files=True)
+                break
     r = call(lambda: m.templates_probes)
     probes = spec.probes if spec.probes is not None else np.zeros(spec.n_channels, int)
     if not r.ok or same(r.value, probes[ptp(T, 1).argmax(axis=1)], dtype=False):
